@@ -7,7 +7,9 @@
 #include "galois/Bag.h"
 #include "galois/gdeque.h"
 
+#include <atomic>
 #include <forward_list>
+#include <functional>
 #include <list>
 #include <set>
 
@@ -18,10 +20,11 @@ const char* const HARNESS = "c03";
 constexpr int MAXR        = 4;
 enum { F_TOPO = S_NFIELDS, F_REGIONS, F_FAST, F_FILLT, F_R0 };
 enum { R_KIND = 0, R_THREADS, R_SIZE, R_CHUNK, R_STEAL, R_N };
-constexpr int F_COUNT = F_R0 + MAXR * R_N;
+constexpr int F_DED   = F_R0 + MAXR * R_N; // dedicated threads started (ThreadPool::runDedicated) before the regions
+constexpr int F_COUNT = F_DED + 1;
 const std::vector<const char*> FIELDS = {VERIF_SCHED_FIELDS, "topo", "regions", "fast", "fillt",
                                          "k0", "t0", "n0", "c0", "s0", "k1", "t1", "n1", "c1", "s1",
-                                         "k2", "t2", "n2", "c2", "s2", "k3", "t3", "n3", "c3", "s3"};
+                                         "k2", "t2", "n2", "c2", "s2", "k3", "t3", "n3", "c3", "s3", "ded"};
 
 static const char* KINDS[] = {"do_all-int", "do_all-vector", "do_all-list", "do_all-forward_list", "do_all-set",
                               "do_all-InsertBag", "do_all-gdeque", "on_each", "pool-run", "for_each"};
@@ -40,11 +43,25 @@ Case generate() {
   c[F_REGIONS] = *uni(1, MAXR + 1);
   c[F_FAST]    = *uni(0, 16); // bit r: burnPower before region r (else beKind)
   c[F_FILLT]   = *uni(1, maxt + 1);
+  // dedicated threads reserve the highest pool threads; every region calls
+  // setActiveThreads again afterwards (the documented order -- runDedicated's
+  // TODO says it does not lower a thread count that was set before it)
+  if (maxt >= 3 && *gen::weightedElement<int>({{3, 0}, {1, 1}}))
+    c[F_DED] = *uni(1, std::min(maxt - 1, 3));
+  // +4: one (more) dedicated thread is started AFTER region 0's setActiveThreads, which is
+  // not called again before the region runs (known finding: the active count stays stale)
+  if (maxt >= 3 && *uni(0, 12) == 0) {
+    if (excluded("C03/runDedicated-after-setActiveThreads/stale-active-count"))
+      count_excluded();
+    else
+      c[F_DED] = (c[F_DED] & 1) + 4;
+  }
   bool bag_excl = excluded("C03/do_all-InsertBag/fewer-active-threads");
   for (int r = 0; r < MAXR; ++r) {
     int64_t* f   = &c.f[F_R0 + r * R_N];
     f[R_KIND]    = *uni(0, NKIND);
-    f[R_THREADS] = maxt > 1 && *gen::weightedElement<int>({{1, 0}, {6, 1}}) ? *uni(2, maxt + 1) : 1;
+    // requests above the usable count (up to max + 1) must be clamped by setActiveThreads
+    f[R_THREADS] = maxt > 1 && *gen::weightedElement<int>({{1, 0}, {6, 1}}) ? *uni(2, maxt + 2) : 1;
     int64_t chunk = *gen::element<int64_t>(1, 2, 3, 32, 4096);
     f[R_CHUNK]    = chunk;
     // sizes: 0, 1, < threads, chunk +- 1, k*chunk + r, larger
@@ -88,6 +105,9 @@ std::string finding_key(const Case& c, const std::string& failkey) {
         return "C03/do_all-InsertBag/fewer-active-threads";
   }
   std::string k = failkey;
+  if ((c[F_DED] & 4) && c[F_R0 + R_THREADS] >= TOPO_THREADS[c[F_TOPO]] - (c[F_DED] & 3) &&
+      (k.find("/missed") != std::string::npos || k.find("crash") == 0 || k.find("/wrong-id") != std::string::npos))
+    return "C03/runDedicated-after-setActiveThreads/stale-active-count";
   if (k == "spin-deadlock" || k == "deadlock" || k == "liveness")
     k = "no-return";
   return "C03/" + k;
@@ -148,6 +168,18 @@ void run(const Case& c) {
   auto& tp = galois::substrate::getThreadPool();
   int R    = (int)c[F_REGIONS];
   bool nt  = false;
+  // ---- dedicated threads first
+  int ded   = (int)(c[F_DED] & 3);
+  bool late = (c[F_DED] & 4) != 0;
+  static std::atomic<long> ded_ran;
+  ded_ran = 0;
+  std::function<void(void)> dedfn = []() { ++ded_ran; };
+  unsigned usable = tp.getMaxUsableThreads();
+  for (int d = 0; d < ded && tp.getMaxUsableThreads() > 1; ++d) {
+    tp.runDedicated(dedfn);
+    usable = tp.getMaxUsableThreads();
+  }
+  bool clamped = false;
   unsigned prev_threads = 0;
   long total_elems = 0;
   for (int r = 0; r < R; ++r) {
@@ -172,6 +204,14 @@ void run(const Case& c) {
       (void)ft;
     }
     unsigned t = galois::setActiveThreads((unsigned)f[R_THREADS]);
+    if (t != galois::getActiveThreads() || t < 1)
+      vfail("threads/active-count", "setActiveThreads(%u) returned %u, getActiveThreads() = %u", (unsigned)f[R_THREADS], t, galois::getActiveThreads());
+    clamped |= (unsigned)f[R_THREADS] > usable;
+    if (late && r == 0 && tp.getMaxUsableThreads() > 1) {
+      tp.runDedicated(dedfn); // the active thread count is now possibly above the usable count
+      ++ded;
+      usable = tp.getMaxUsableThreads();
+    }
     if ((c[F_FAST] >> r) & 1)
       tp.burnPower(t);
     if (kind == 7 || kind == 8)
@@ -283,6 +323,15 @@ void run(const Case& c) {
     label(std::string("kind") + std::to_string(r), KINDS[kind]);
   }
   tp.beKind();
+  // the dedicated function runs asynchronously, exactly once per runDedicated
+  long ded_want = std::min<long>(ded, TOPO_THREADS[c[F_TOPO]] - 1);
+  while (ded_ran.load() < ded_want)
+    sched_yield();
+  if (ded_ran.load() != ded_want)
+    vfail("dedicated/run-count", "%d dedicated thread(s) started, their function ran %ld times", ded, ded_ran.load());
+  label("dedicated", (long)ded);
+  label("dedicated_after_set", late);
+  label("over_asked", clamped);
   label("topo", TOPOS[c[F_TOPO]]);
   label("regions", R);
   label("stolen", stolen_seen);
